@@ -227,6 +227,12 @@ def family_configs(fam, centres, tier):
                     sp = K.polygon_spec(name, s, c)
                     sp['scale'] = s
                     yield sp, allm
+            # rings whose first and last vertices share one coordinate while the last vertex alone reaches the
+            # extreme of the other one (a "closed ring" test that compares one coordinate only drops it)
+            for name, (xs, ys) in LAST_EXTREME.items():
+                for s in _poly_scales(tier):
+                    yield {'cls': 'polygon', 'name': name, 'scale': s,
+                           'vertices': [[c[0] + s * v for v in xs], [c[1] + s * v for v in ys]]}, allm
             D = _line_deltas(tier)
             for dx in D:
                 for dy in D:
@@ -246,6 +252,13 @@ def family_configs(fam, centres, tier):
         else:
             raise ValueError(fam)
 
+
+LAST_EXTREME = {
+    'last_top': ([0, 3, 2, 0], [0, 1, 3, 5]),
+    'last_right': ([0, 1, 3, 5], [0, 3, 2, 0]),
+    'last_bottom': ([0, 3, 2, 0, 0], [0, -1, -3, -2, -5]),
+    'last_left': ([0, 1, 3, 1, -5], [0, 3, 2, 1, 0]),
+}
 
 FAMILIES = ['small', 'compound', 'regpoly', 'ellipse', 'rectangle', 'ellipseannulus', 'rectangleannulus']
 
@@ -605,6 +618,40 @@ def check_config(res, spec, all_modes=True):
                 ok = False
                 res.violation(ID, 'mask_bbox_differs', dict(case, mode=[mode, n]),
                               f'{cls} mode={mode}/{n}: mask.bbox {mb} != region.bounding_box {got}', list(got), repr(mb))
+        # (7) a carried box is a value: using it as the operand of a union / intersection leaves it, the mask and the
+        #     region's own box as they were
+        if done_n:
+            from regions import RegionBoundingBox
+            other = RegionBoundingBox(got[0] - 3, got[1] + 2, got[2] - 1, got[3] + 4)
+            inner = RegionBoundingBox(got[0], got[0] + 1, got[2], got[2] + 1)
+            try:
+                u1 = mask.bbox | other
+                u2 = mask.bbox.union(inner)
+                i1 = mask.bbox & inner
+                i2 = bb.intersection(other)
+                u3 = bb | other
+                after = (_box_tuple(mask.bbox), _box_tuple(bb), _box_tuple(reg.bounding_box), _box_tuple(other), _box_tuple(inner))
+                results = (_box_tuple(u1), _box_tuple(u2), _box_tuple(i1), _box_tuple(i2), _box_tuple(u3))
+            except Exception as exc:
+                ok = False
+                res.violation(ID, 'unexpected_exception', case, f'{cls}: union / intersection of the mask box raised {type(exc).__name__}: {exc}')
+            else:
+                res.transitions += 5
+                ot, it = (got[0] - 3, got[1] + 2, got[2] - 1, got[3] + 4), (got[0], got[0] + 1, got[2], got[2] + 1)
+                if after != (got, got, got, ot, it):
+                    ok = False
+                    res.violation(ID, 'box_changed_by_use', case,
+                                  f'{cls}: after mask.bbox | other, mask.bbox.union(inner), mask.bbox & inner, box.intersection(other), '
+                                  f'box | other the boxes (mask.bbox, box, region.bounding_box, other, inner) are {after}, expected '
+                                  f'{(got, got, got, ot, it)}', [list(got), list(ot), list(it)], [list(a) for a in after])
+                elif results != (ot, got, it, got, ot):
+                    ok = False
+                    res.violation(ID, 'box_algebra_wrong', case,
+                                  f'{cls}: unions / intersections of the box {got} with {ot} and {it} gave {results}',
+                                  [list(ot), list(got), list(it), list(got), list(ot)], [list(r) for r in results])
+                if tuple(int(v) for v in mask.data.shape) != (got[3] - got[2], got[1] - got[0]):
+                    ok = False
+                    res.violation(ID, 'mask_shape_mismatch', case, f'{cls}: mask.data.shape no longer matches its box after the box was used')
         # reference membership on the oracle's box padded by 2 pixels: no sure member sample may fall in a
         # pixel outside the reported box (sub-sample grids of the modes that exist; 5x5 stands in for 'exact')
         if done_n:
